@@ -1329,3 +1329,166 @@ Section Three.
     rewrite (core_shell_route_only (is_cursor m) inp c H Hr). reflexivity.
   Qed.
 End Three.
+
+(* ------------------------------------------------------------------ faults only ever push towards {} / ask (C06_failures) *)
+(* r' is r, or r' raises (an Exception) where r returned *)
+Definition fle {A} (r' r : res A) : Prop := r' = r \/ exists e, r' = Raise e /\ is_exception e = true.
+
+Lemma fle_refl {A} (r : res A) : fle r r.
+Proof. left; reflexivity. Qed.
+Lemma fle_bind {A B} (x' x : res A) (f' f : A -> res B) :
+  fle x' x -> (forall a, fle (f' a) (f a)) -> fle (bind x' f') (bind x f).
+Proof.
+  intros [-> | (e & -> & He)] H.
+  - destruct x; cbn [bind]; [apply H | left; reflexivity].
+  - right. exists e. auto.
+Qed.
+Lemma fle_raise {A} (r : res A) e : is_exception e = true -> fle (Raise e) r.
+Proof. intro H. right. eauto. Qed.
+
+Section Faulty.
+  Variables S G : Type.
+  Notation config := (config S G).
+  (* the fault-free world ... *)
+  Variable o_resolve : str -> res str.
+  Variable o_getcwd : res str.
+  Variable o_load_config : str -> res config.
+  Variable o_configure_logging : G -> res unit.
+  Variable o_log_decision : str -> str -> res unit.
+  Variable o_analyze : str -> S -> str -> res (str * str).
+  Variable o_after_prep : S -> str -> list str -> res unit.
+  Variable o_after_rule : S -> str -> list str -> rule -> res bool.
+  Variable o_print : str -> res unit.
+  (* ... and one where any of these calls, at any arguments, may raise instead *)
+  Variable f_resolve : str -> res str.
+  Variable f_getcwd : res str.
+  Variable f_load_config : str -> res config.
+  Variable f_configure_logging : G -> res unit.
+  Variable f_log_decision : str -> str -> res unit.
+  Variable f_analyze : str -> S -> str -> res (str * str).
+  Variable f_after_prep : S -> str -> list str -> res unit.
+  Variable f_after_rule : S -> str -> list str -> rule -> res bool.
+  Variable f_print : str -> res unit.
+  (* fnmatch and tokenize are total in both *)
+  Variable o_gmatch : str -> str -> bool.
+  Variable o_words : str -> list str.
+
+  Record faulty : Prop := {
+    fl_resolve : forall s, fle (f_resolve s) (o_resolve s);
+    fl_getcwd : fle f_getcwd o_getcwd;
+    fl_load : forall c, fle (f_load_config c) (o_load_config c);
+    fl_conf : forall g, fle (f_configure_logging g) (o_configure_logging g);
+    fl_log : forall d c, fle (f_log_decision d c) (o_log_decision d c);
+    fl_analyze : forall c s w, fle (f_analyze c s w) (o_analyze c s w);
+    fl_prep : forall s c w, fle (f_after_prep s c w) (o_after_prep s c w);
+    fl_rule : forall s c w r, fle (f_after_rule s c w r) (o_after_rule s c w r);
+    fl_print : forall s, fle (f_print s) (o_print s)
+  }.
+
+  Variable F : faulty.
+
+  Notation core_o := (@core S G o_resolve o_getcwd o_load_config o_configure_logging o_log_decision
+                            o_analyze o_gmatch o_words o_after_prep o_after_rule o_print).
+  Notation core_f := (@core S G f_resolve f_getcwd f_load_config f_configure_logging f_log_decision
+                            f_analyze o_gmatch o_words f_after_prep f_after_rule f_print).
+  Notation main_o := (@main S G o_resolve o_getcwd o_load_config o_configure_logging o_log_decision
+                            o_analyze o_gmatch o_words o_after_prep o_after_rule o_print).
+  Notation main_f := (@main S G f_resolve f_getcwd f_load_config f_configure_logging f_log_decision
+                            f_analyze o_gmatch o_words f_after_prep f_after_rule f_print).
+
+  Lemma find_cwd_fle inp : fle (find_cwd f_resolve f_getcwd inp) (find_cwd o_resolve o_getcwd inp).
+  Proof.
+    unfold find_cwd. apply fle_bind; [apply fle_refl|]. intro c1.
+    apply fle_bind; [apply fle_refl|]. intro c2.
+    destruct (truthy c2); [|apply F]. unfold path_resolve. destruct c2; try apply fle_refl. apply F.
+  Qed.
+
+  Lemma load_stage_fle cwd :
+    fle (load_stage f_load_config f_configure_logging cwd) (load_stage o_load_config o_configure_logging cwd).
+  Proof.
+    unfold load_stage. apply fle_bind; [apply F|]. intro cfg. apply fle_bind; [apply F|]. intro; apply fle_refl.
+  Qed.
+
+  Lemma perm_bypass_fle inp post : fle (perm_bypass f_log_decision inp post) (perm_bypass o_log_decision inp post).
+  Proof.
+    unfold perm_bypass. destruct (negb post); [|apply fle_refl].
+    apply fle_bind; [apply fle_refl|]. intro pm. destruct (py_in_tuple pm BYPASS_MODES); [|apply fle_refl].
+    apply fle_bind; [apply F|]. intro; apply fle_refl.
+  Qed.
+
+  Lemma text_outcome_fle msg : fle (text_outcome f_print msg) (text_outcome o_print msg).
+  Proof.
+    unfold text_outcome. destruct msg as [[|c t]|]; try apply fle_refl.
+    apply fle_bind; [apply F|]. intro; apply fle_refl.
+  Qed.
+
+  Lemma after_loop_fle sh cwd ws rules acc :
+    fle (after_loop f_after_rule sh cwd ws rules acc) (after_loop o_after_rule sh cwd ws rules acc).
+  Proof.
+    revert acc. induction rules as [|r rs IH]; intro acc; cbn [after_loop]; [apply fle_refl|].
+    apply fle_bind; [apply F|]. intro b. apply IH.
+  Qed.
+
+  Lemma core_shell_fle inp he c (cfg : config) cwd :
+    fle (core_shell f_log_decision f_analyze o_words f_after_prep f_after_rule f_print inp he c cfg cwd)
+        (core_shell o_log_decision o_analyze o_words o_after_prep o_after_rule o_print inp he c cfg cwd).
+  Proof.
+    unfold core_shell. apply fle_bind; [apply perm_bypass_fle|]. intros [o|]; [apply fle_refl|].
+    destruct (py_eq_str he $"PostToolUse").
+    - apply fle_bind; [apply fle_refl|]. intro ws. apply fle_bind; [|apply text_outcome_fle].
+      unfold match_after. apply fle_bind; [apply F|]. intro. apply after_loop_fle.
+    - apply fle_bind.
+      { unfold analyze. destruct c; try apply fle_refl. apply F. }
+      intros [a r]. apply fle_bind; [apply F|]. intro; apply fle_refl.
+  Qed.
+
+  Lemma core_mcp_fle inp he tn (cfg : config) :
+    fle (core_mcp f_log_decision o_gmatch f_print inp he tn cfg) (core_mcp o_log_decision o_gmatch o_print inp he tn cfg).
+  Proof.
+    unfold core_mcp. apply fle_bind; [apply perm_bypass_fle|]. intros [o|]; [apply fle_refl|].
+    destruct (py_eq_str he $"PostToolUse"); [apply text_outcome_fle|].
+    destruct (match_mcp o_gmatch tn cfg); [|apply fle_refl].
+    apply fle_bind; [apply F|]. intro; apply fle_refl.
+  Qed.
+
+  Lemma core_after_config_fle cursor inp (cfg : config) cwd :
+    fle (core_after_config f_log_decision f_analyze o_gmatch o_words f_after_prep f_after_rule f_print cursor inp cfg cwd)
+        (core_after_config o_log_decision o_analyze o_gmatch o_words o_after_prep o_after_rule o_print cursor inp cfg cwd).
+  Proof.
+    rewrite !core_after_config_route. apply fle_bind; [apply fle_refl|]. intro he.
+    apply fle_bind; [apply fle_refl|]. intros [c|tn|]; [apply core_shell_fle | apply core_mcp_fle | apply fle_refl].
+  Qed.
+
+  (* the faulty core: the same outcome, or an exception, or the config-error ask *)
+  Definition cle (r' r : res outcome) : Prop :=
+    fle r' r \/ exists msg, r' = Ok (ODecision Ask ($"config error: " ++ msg)).
+
+  Lemma core_cle cursor inp : cle (core_f cursor inp) (core_o cursor inp).
+  Proof.
+    unfold core. destruct (find_cwd_fle inp) as [-> | (e & -> & He)].
+    2: { left. right. exists e. auto. }
+    destruct (find_cwd o_resolve o_getcwd inp) as [cwd|e]; cbn [bind]; [|left; apply fle_refl].
+    destruct (load_stage_fle cwd) as [-> | (e & -> & He)].
+    - destruct (load_stage o_load_config o_configure_logging cwd) as [cfg|e]; [|left; apply fle_refl].
+      left. apply core_after_config_fle.
+    - destruct e; try (left; right; eexists; split; [reflexivity | exact He]).
+      right. exists msg. reflexivity.
+  Qed.
+
+  (* on the process: injected failures leave the answer as it was, or turn it into {} or into the
+     config-error ask - never into anything else (in particular never into allow or deny) *)
+  Lemma main_fault_monotone setup e inp :
+    (setup = Ok tt \/ setup = Raise OSError) ->
+    stdout (main_f setup e (Ok inp)) = stdout (main_o setup e (Ok inp)) \/
+    stdout (main_f setup e (Ok inp)) = [J (JObj [])] \/
+    exists m msg, stdout (main_f setup e (Ok inp)) = [J (envelope m Ask ($"config error: " ++ msg))].
+  Proof.
+    intro Hs. rewrite !main_is_handlers by exact Hs. cbn [bind]. rewrite !main_try_factor.
+    destruct (match detect_mode_from_flags e with Some m => Ok m | None => detect_mode_from_input inp end) as [m|x];
+      cbn [bind]; [|left; reflexivity].
+    unfold lift. destruct (core_cle (is_cursor m) inp) as [[-> | (x & -> & Hx)] | (msg & ->)].
+    - left; reflexivity.
+    - right; left. cbn [bind handlers]. rewrite Hx. reflexivity.
+    - right; right. exists m, msg. reflexivity.
+  Qed.
+End Faulty.
